@@ -4,26 +4,26 @@
 import json, os
 here = os.path.dirname(os.path.abspath(__file__))
 SCOPE = {
- "C01": ("E2", "13 types; every structure of the builder grammar; sequences n=1..5; deviation bound 1 (thorough 2); EVERY part length 2..4200 (9000) for 4 types, EVERY record count 4..1600 (3100) for 2 types, 65535..65537 and one history of 300001 records (thorough also 2^17, 2^18 +-1, 1048577); ladder to 70001 points / 1025 parts; every finalize placement around 1-5 writes; unit holes translated by 2^27..2^40; measure patterns mixing real and no-data; sizes crossed with special values and with two long parts; thin rings of 2^14 vertices; 6 in-memory + 3 disk routes"),
- "C02": ("E2 + RefCodec + fault runs", "the space of C01 + empty files; plus every history <= 3 (4) over {Wa, Wb, F} x 13 types x index on/off under every single fault (39 error kinds on the short ones, zero-byte writes, seeks that move before failing) and every pair of faults, and dropped by unwinding: the .shp left behind holds exactly the accepted shapes"),
- "C03": ("E2, RefCodec-encoded files", "14 file types; every record variant x 5 numberings x 4 trailings; 2-4 record tuples; d<=1 (2) over coordinates and box fields; every part length 2..4200 (9000); size ladder; 3-record files under 14 std-adaptor programs; sizes crossed with special values and with two long parts; a 700 001-point record (> 10 MiB) alone / last / before a null record"),
- "C04": ("E2 + RefCodec + fault runs", "13 types; n=0..4 (5) ordered tuples; every finalize placement; stale destinations; from_path; 14 adaptor programs with and without index from 3 reader states; random access at the ends of the index type; by path under plain, capital and symbolically linked names; fault runs as in C02 judged by the index clause"),
- "C05": ("E2", "structures <=3 parts; sequences of 2-3; one slot x F_xy; whole dimension = one value; every slot pair x lows x highs; every record count 4..1100 (3100); parts of 1025..16385 (65537) points with the extremes in each part in turn; every vertex stacked on the one before it"),
- "C06": ("E2 (complete matrix)", "13x14 (S,T) x files of 1-2 (3) records; mixed / null files through 4 routes; special values; conversions; 3-record files behind hand-made indexes (4 orders x fillers x 7 length-field lies) typed vs generic on 12 routes incl. by path (with and without a .dbf) and the complete Reader from 4 states; the text of mismatch errors"),
- "C07": ("E3", "47+ base files (14 types x 1-3 records, fixtures, 8193-point shapes); every 32-bit field x ~200 boundary values; every truncation; every bit flip; extensions; tails; shifted files; interacting pairs; 11 ladder families (unbacked, partially backed, honest 1025/3000 points then the lie, no part but n points); 7 adaptor programs and a size-hint driven collect per input; honest records with one long and 1500 short parts"),
- "C08": ("E1", "depth 5 (6) over 6 letters, 8 (13) types; by path (next to a data set whose name differs by case), stale destinations, no-data measures, dotted file names to depth 3; ladder 255..4097 pairs; typed pair routes, one-call bulk write, from_path_with_info; a shape with empty parts"),
+ "C01": ("E2", "13 types; every structure of the builder grammar; sequences n=1..5; deviation bound 1 (thorough 2); EVERY part length 2..4200 (9000) for 4 types, EVERY record count 4..1600 (3100) for 2 types, 65535..65537 and one history of 300001 records (thorough also 2^17, 2^18 +-1, 1048577); ladder to 70001 points / 1025 parts; every finalize placement around 1-5 writes; unit holes translated by 2^27..2^40; measure patterns mixing real and no-data; sizes crossed with special values and with two long parts; thin rings of 2^14 vertices; 6 in-memory + 3 disk routes; three long parts, an empty part and 16383..20000 parts inside records of more than 2^16 points; disk names by turns plain / without extension / not UTF-8"),
+ "C02": ("E2 + RefCodec + fault runs", "the space of C01 + empty files; plus every history <= 3 (4) over {Wa, Wb, F} x 13 types x index on/off under every single fault (39 error kinds on the short ones, zero-byte writes, seeks that move before failing) and every pair of faults, and dropped by unwinding: the .shp left behind holds exactly the accepted shapes; every fault-run history <= 2 also ended by the consuming write_shapes"),
+ "C03": ("E2, RefCodec-encoded files", "14 file types; every record variant x 5 numberings x 4 trailings; 2-4 record tuples; d<=1 (2) over coordinates and box fields; every part length 2..4200 (9000); size ladder; 3-record files under 14 std-adaptor programs; sizes crossed with special values and with two long parts; a 700 001-point record (> 10 MiB) alone / last / before a null record; long records with and without M followed by another record; three long parts, an empty part, 16384 / 20000 parts"),
+ "C04": ("E2 + RefCodec + fault runs", "13 types; n=0..4 (5) ordered tuples; every finalize placement; stale destinations; from_path; 14 adaptor programs with and without index from 3 reader states; random access at the ends of the index type; by path under plain, capital and symbolically linked names; fault runs as in C02 judged by the index clause; nth at 2^32+k, 2^33+k, 2^63+k; names without extension and not UTF-8"),
+ "C05": ("E2", "structures <=3 parts; sequences of 2-3; one slot x F_xy; whole dimension = one value; every slot pair x lows x highs; every record count 4..1100 (3100); parts of 1025..16385 (65537) points with the extremes in each part in turn; every vertex stacked on the one before it; measures down to -9.99e38; user-defined shapes whose announced ranges lie"),
+ "C06": ("E2 (complete matrix)", "13x14 (S,T) x files of 1-2 (3) records; mixed / null files through 4 routes; special values; conversions; 3-record files behind hand-made indexes (4 orders x fillers x 7 length-field lies) typed vs generic on 12 routes incl. by path (with and without a .dbf) and the complete Reader from 4 states; the text of mismatch errors; indexed records without their M block"),
+ "C07": ("E3", "47+ base files (14 types x 1-3 records, fixtures, 8193-point shapes); every 32-bit field x ~200 boundary values; every truncation; every bit flip; extensions; tails; shifted files; interacting pairs; 11 ladder families (unbacked, partially backed, honest 1025/3000 points then the lie, no part but n points); 7 adaptor programs and a size-hint driven collect per input; honest records with one long and 1500 short parts; 32-bit overflow thresholds 2^31/d, 2^32/d +- 1 for the record strides d; a first part that lies"),
+ "C08": ("E1", "depth 5 (6) over 6 letters, 8 (13) types; by path (next to a data set whose name differs by case), stale destinations, no-data measures, dotted file names to depth 3; ladder 255..4097 pairs; typed pair routes, one-call bulk write, from_path_with_info; a shape with empty parts; names without extension; all-success histories <= 3 under every single fault on the .shp / .shx"),
  "C09": ("E1", "depth 7 (10) over {Wa, Wb, F, one refused write} x 13 types x {no index, index, stale, stale + not at start, shape a read from a record with an inverted box} x 6 endings; from_path to depth 3"),
- "C10": ("E1 + fault runs", "depth 5 (8), 156 type pairs x 4 routes (the 4th: complete Writer over a typed ShapeWriter), every history also ended by the consuming write_shapes of the other type, <=2 rejected calls; rejected write after every count 1..1100 (3100); user-defined shapes of all 14 types and absurd sizes; histories <= 4 (5) with R under every single fault (thorough: pair)"),
+ "C10": ("E1 + fault runs", "depth 5 (8), 156 type pairs x 4 routes (the 4th: complete Writer over a typed ShapeWriter), every history also ended by the consuming write_shapes of the other type, <=2 rejected calls; rejected write after every count 1..1100 (3100); user-defined shapes of all 14 types and absurd sizes; histories <= 4 (5) with R under every single fault (thorough: pair); the text of the rejection names both types for all 156 pairs"),
  "C11": ("crash enumeration", "workloads <=4 ops (5) x 6 (13) types, every (k,b) on .shp x every (k,b) on .shx; 1000/1500/2000-point records; a 10 001-write workload in windows around 1000/1024/4096/8192/10 000 records; a 17.6 MB record; histories <= 3 under every single fault (thorough: pair), images at each successful finalize and after drop"),
  "C12": ("fault enumeration", "histories <=4 (6) x 13 types x index on/off; every op x {one-shot, persistent}; finalize retried at once, twice, or later; chunk family; for histories <= 3 (4): 3 more error kinds x bursts 1-4, zero-byte writes, seeks that move before failing, all 39 error kinds (histories <= 2), stale destinations, every pair of faults; a 131073-write history with every seek / flush failing; a .shp beyond 2 GiB on a discarding destination with faults in its tail"),
- "C13": ("fault enumeration", "13 types x 3 files x {library, RefCodec} + fillers + large; every cut of .shp / .shx; every read/seek fault; short-read family; for 1-2 record files every pair of faults with the iteration going on, and every cut of either file on disk against memory; cuts under indexes listing 3 records as [2,0,1] (every length) and 40 records reversed"),
- "C14": ("E2, RefCodec files", "13 types; n=1..3 (4); all n! orders x 5^(n+1) fillers x 2 bytes; short reads; far offsets; 14 adaptor programs from 3 reader states; typed iteration as another type; by-path routes incl. .SHP names"),
+ "C13": ("fault enumeration", "13 types x 3 files x {library, RefCodec} + fillers + large; every cut of .shp / .shx; every read/seek fault; short-read family; for 1-2 record files every pair of faults with the iteration going on, and every cut of either file on disk against memory; cuts under indexes listing 3 records as [2,0,1] (every length) and 40 records reversed; one failing operation around seek(i) / read_nth_shape(i) in the middle of an iteration that goes on (failing seeks landing where they were / at their target / at offset 0)"),
+ "C14": ("E2, RefCodec files", "13 types; n=1..3 (4); all n! orders x 5^(n+1) fillers x 2 bytes; short reads; far offsets; 14 adaptor programs from 3 reader states; typed iteration as another type; by-path routes incl. .SHP names; empty files behind an index; records without their M block"),
  "C15": ("E1", "depth 4 over 27 / 24 / 21 actions (13 base + 14 adaptor programs); thorough depth 5 with 5 programs + depth 4 with all; 4 (7) types x 4 layouts x 4 reader kinds (the 4th: complete Reader without index)"),
- "C16": ("E2", "rings of 1..5 (6) over 3x3; pairs <=4, triples <=3 over 2x2; deviations; thin rings of every size 4..9000 (20000) and around 2^14, 2^15 (2^16, 2^17) whose every edge term outweighs the area; offsets; every triangle over a 12x12 (16x16) grid of magnitudes from 2^-1000 to 2^600, judged by the exact area sign in big integers; patches"),
- "C17": ("E3 + allocator", "the inputs of C07 (incl. pairs of lying lengths across .shp / .shx, and the complete Reader next to a .dbf declaring 0..2^32-1 rows), every call metered against 64 x input + 64 KiB"),
+ "C16": ("E2", "rings of 1..5 (6) over 3x3; pairs <=4, triples <=3 over 2x2; deviations; thin rings of every size 4..9000 (20000) and around 2^14, 2^15 (2^16, 2^17) whose every edge term outweighs the area; offsets; every triangle over a 12x12 (16x16) grid of magnitudes from 2^-1000 to 2^600, judged by the exact area sign in big integers; patches; zigzag strips of 3..40 teeth near 2^52 and triangles over {0, 1, 2^600} x a few subnormals (area sums that halving would flush to zero)"),
+ "C17": ("E3 + allocator", "the inputs of C07 (incl. pairs of lying lengths across .shp / .shx, and the complete Reader next to a .dbf declaring 0..2^32-1 rows), every call metered against 64 x input + 64 KiB; a FoxPro table with a memo companion file (.fpt / .dbt) declaring up to 2^32-1 bytes, read by path"),
  "C18": ("E2", "<=4 parts x lengths <=5 (<=6 x <=8); empty parts; 5 measure patterns; every single-part size to 4200; EVERY part count 5..3000 and to 8193; ladder to 131 073 points; shapes read from hand-assembled records (every ascending part-start array over 0..5 points); one transient fault at each of 40 operations x 3 kinds; user-defined shapes really emitting up to 3 GiB"),
- "C19": ("complete", "2^32 codes through `from` (thorough: also headers and typed records); structured set through header, record (4/20/36-byte content x 3 routes), typed-record and index-header routes"),
- "C20": ("E2 (vcheck-geo)", "see section 3; plus shapes read from records encoded as given (one-vertex parts, rings closed in X/Y only), holes inside an earlier outer ring, parts sharing end points"),
+ "C19": ("complete", "2^32 codes through `from` (thorough: also headers and typed records); structured set through header, record (4/20/36-byte content x 3 routes), typed-record and index-header routes; headers with other version / unused words"),
+ "C20": ("E2 (vcheck-geo)", "see section 3; plus shapes read from records encoded as given (one-vertex parts, rings closed in X/Y only), holes inside an earlier outer ring, parts sharing end points; rings that revisit a vertex (two lobes, spikes)"),
 }
 def human(n):
     n = float(n)
